@@ -299,6 +299,14 @@ impl Interp {
         }
     }
 
+    /// runaway string growth counts as running out of fuel
+    fn charge_str(&mut self, len: usize) -> R<()> {
+        if len > 1 << 20 {
+            return Err(Ctl::Fuel);
+        }
+        self.burn((len / 256) as i64)
+    }
+
     fn emit(&mut self, line: String) -> R<()> {
         if self.log.len() >= self.max_log {
             return Err(Ctl::Fuel);
@@ -763,6 +771,7 @@ impl Interp {
                             let v = self.eval(e, scope, va)?;
                             let s = self.tostring(&v)?;
                             out.extend_from_slice(&s);
+                            self.charge_str(out.len())?;
                         }
                     }
                 }
@@ -966,11 +975,7 @@ impl Interp {
                 if ok(&l) && ok(&r) {
                     let mut out = self.tostring_basic(&l);
                     out.extend_from_slice(&self.tostring_basic(&r));
-                    if out.len() > 1 << 20 {
-                        // runaway string growth counts as running out of fuel
-                        return Err(Ctl::Fuel);
-                    }
-                    self.burn((out.len() / 256) as i64)?;
+                    self.charge_str(out.len())?;
                     return Ok(Value::bytes(&out));
                 }
                 if matches!(l, Value::Proxy(_)) || matches!(r, Value::Proxy(_)) {
@@ -1842,6 +1847,7 @@ impl Interp {
                         }
                     }
                 }
+                self.charge_str(out.len())?;
                 Ok(vec![Value::bytes(&out)])
             }
             B_T_INSERT => {
@@ -1932,6 +1938,7 @@ impl Interp {
                         out.extend_from_slice(&sep);
                     }
                     k += 1.0;
+                    self.charge_str(out.len())?;
                 }
                 Ok(vec![Value::bytes(&out)])
             }
